@@ -301,6 +301,19 @@ func lookupDelimIndex(ch rune) int {
 	return -1
 }
 
+// openingDelimIndex returns the index in [pairedDelims] of the opening delimiter
+// matching the closing one at [closeIndex]: the previous entry, but for two pairs of
+// brackets which are not adjacent in code point order (U+298D with U+2990, U+298F with U+298E)
+func openingDelimIndex(closeIndex int) int {
+	switch pairedDelims[closeIndex] {
+	case 0x298e:
+		return closeIndex + 1
+	case 0x2990:
+		return closeIndex - 3
+	}
+	return closeIndex - 1
+}
+
 // See https://unicode.org/reports/tr24/#Common for reference
 func (seg *Segmenter) splitByScript() {
 	for _, input := range seg.input {
@@ -326,7 +339,7 @@ func (seg *Segmenter) splitByScript() {
 				} else {
 					// this is a close character : try to look backward in the stack
 					// for its counterpart
-					counterPartIndex := delimIndex - 1
+					counterPartIndex := openingDelimIndex(delimIndex)
 					j := len(seg.delimStack) - 1
 					for ; j >= 0; j-- {
 						if seg.delimStack[j].index == counterPartIndex { // found a match, use its script
